@@ -1977,6 +1977,15 @@ def m_linalg_pinv(interp, A, *a, **k):
     A = obj_array(A)
     if A.ndim != 2 or A.shape[0] < A.shape[1]:
         raise EngineError("symbolic pinv only modelled for tall/square full-column-rank matrices")
+    # the contract below holds for EVERY full-column-rank matrix only with numpy's default cut-off (a few ulp of the largest
+    # singular value): an explicit larger cut-off zeroes the small singular values of ill-conditioned full-rank matrices
+    cut = list(a[:1]) + [k[n] for n in ("rcond", "rtol") if k.get(n) is not None]
+    for t in cut:
+        if is_sym(t) or contains_sym(t):
+            raise EngineError("symbolic pinv cut-off not modelled")
+        if float(np.max(t)) > 1e-13:
+            interp.ctx.breaches.append("np.linalg.pinv with cut-off %g does not invert full-rank matrices whose condition number exceeds %g "
+                                     "(pinv(A) == (A^H A)^-1 A^H needs the default cut-off)" % (float(np.max(t)), 1.0 / float(np.max(t))))
     AH = np.frompyfunc(lambda v: v.conjugate() if hasattr(v, 'conjugate') else v, 1, 1)(A).T
     adj, det = _det_inv(np.dot(AH, A))
     _require_not_identically_singular(det)
